@@ -242,7 +242,10 @@ rule("Designator", ["Ident", "Ident '.' DotName", "Ident '[' ExprList ']'", "Ide
 rule("DotName", ["Ident", "Ident", "Ident", "KwMember"], ["Ident"])
 rule("KwMember", ["'End'", "'Begin'", "'Type'", "'Asm'", "'Class'", "'Of'"], ["'End'"], ident=True)
 rule("GenericCall", ["TypeIdent '<' TypeArgs '>' '.' 'Create'", "TypeIdent '<' TypeArgs '>' '.' 'Create' '(' ExprList ')'",
-                     "Ident '.' Ident '<' TypeName '>' '(' ExprList ')'"], ["TypeIdent '<' TypeName '>' '.' 'Create'"])
+                     "Ident '.' Ident '<' TypeName '>' '(' ExprList ')'",
+                     # several type arguments directly followed by a bracket (the shape that could also be two comparisons)
+                     "Ident '<' TypeName ',' TypeName '>' '(' ExprList ')'", "Ident '.' Ident '<' TypeName ',' TypeName '>' '(' ')'",
+                     "TypeIdent '<' TypeName ',' TypeName ',' TypeName '>' '.' Ident '(' ExprList ')'"], ["TypeIdent '<' TypeName '>' '.' 'Create'"])
 rule("ExprList", ["Expr", "Expr ',' ExprList", "Expr ',' Expr"], ["Factor0"])
 rule("SetCtor", ["'[' ']'", "'[' ExprList ']'", "'[' Number '..' Number ']'", "'[' Ident ',' Ident '..' Ident ']'"], ["'[' ']'"])
 rule("AnonRoutine", ["'procedure' OptParams @A 'begin' @{ StmtList @C 'end' @} @.", "'function' OptParams ':' Type @A 'begin' @{ StmtList @C 'end' @} @.",
